@@ -59,6 +59,7 @@ structure St where
   ra : Reader := {}
   rb : Reader := {}
   tbl : List (Bytes × Option Bytes) := []
+  sw : Option SwitchState := none
 
 def errName : RErr → String
   | .eof => "eof" | .type => "type" | .length => "length" | .short => "short"
@@ -302,12 +303,65 @@ def stepHS (toks : List String) : String :=
   let noB := scen == "reflect" || scen == "replay" || scen == "replayeph" || scen == "mitmfull"
   s!"a={showRes kA resA} b={if noB then "-" else showRes kB resB}"
 
+/-! ## switch admission -/
+
+def keyOfName (n : String) : Option Key :=
+  ["S", "A", "B", "C", "D", "E", "F"].findIdx? (· == n)
+
+def nameOfKey (k : Nat) : String := ["S", "A", "B", "C", "D", "E", "F"].getD k "?"
+
+def showPeers (s : SwitchState) : String :=
+  let ns := (s.peers.map (fun p => nameOfKey p.id)).mergeSort (fun a b => a ≤ b)
+  if ns.isEmpty then "-" else ",".intercalate ns
+
+def admitErrName : AdmitErr → String
+  | .handshake => "handshake" | .blacklisted => "blacklisted" | .invalid => "invalid" | .keyMismatch => "keymismatch"
+  | .self => "self" | .duplicate => "duplicate" | .incompatible => "incompatible"
+
+def stepSw (sw : Option SwitchState) (toks : List String) : Option SwitchState × String :=
+  match toks with
+  | "swnew" :: _ => (some { self := 0 }, "ok")
+  | op :: _ =>
+    match sw with
+    | none => (none, "dead")
+    | some s =>
+      match op with
+      | "swblack" =>
+        match (arg? toks "key").bind keyOfName with
+        | some k => (some (s.step (.black k)), "ok")
+        | none => (sw, "bad-op")
+      | "swdrop" =>
+        match (arg? toks "key").bind keyOfName with
+        | some k => let s' := s.step (.drop k); (some s', s!"peers={showPeers s'}")
+        | none => (sw, "bad-op")
+      | "swconn" =>
+        match (arg? toks "auth").bind keyOfName, arg? toks "claim" with
+        | some auth, some claim =>
+          let ni : Option (Option NodeInfoM) :=
+            if claim == "garbage" || claim == "silent" then some none
+            else (keyOfName claim).map fun ck =>
+              some { pubKey := ck, cacheId := ((arg? toks "cache").bind keyOfName).map idOf,
+                     valid := (arg? toks "mon") != some "bad",
+                     compatible := (arg? toks "net").isNone && (arg? toks "ver").isNone }
+          match ni with
+          | none => (sw, "bad-op")
+          | some ni =>
+            match admitPeer auth ni s with
+            | .ok s' => (some s', s!"added=true why=none id={nameOfKey (s'.peers.getLast?.map (·.id)).get!} peers={showPeers s'}")
+            | .error e => (sw, s!"added=false why={admitErrName e} id=- peers={showPeers s}")
+        | _, _ => (sw, "bad-op")
+      | _ => (sw, "bad-op")
+  | [] => (sw, "bad-op")
+
 def step (s : St) (toks : List String) : St × String :=
   match toks with
   | "case" :: _ => ({}, "ok")
   | "mux" :: _ => ({}, stepMux toks)
   | "mraw" :: _ => ({}, stepMraw toks)
   | "hs" :: _ => ({}, stepHS toks)
+  | "swnew" :: _ | "swblack" :: _ | "swconn" :: _ | "swdrop" :: _ =>
+    let (sw', ans) := stepSw s.sw toks
+    ({ s with sw := sw' }, ans)
   | _ => stepStream s toks
 
 def machine : Machine := { σ := St, init := {}, step := step }
